@@ -81,6 +81,10 @@ class C34(PropBase):
                 obj["cwe"] = rng.randint(1, 900)
             return json.dumps(obj, ensure_ascii=rng.chance(0.5)), "finding", {"id": "%s-%s" % (addon, eid), "sev": sev, "msg": msg, "locs": locs}
         if k < 55:
+            if rng.chance(0.35):
+                # a summary that does not name its unit: byte-identical lines from several units
+                e = {"summary": "common%d" % rng.below(2), "data": [1]}
+                return json.dumps(e), "summary", e
             return json.dumps({"summary": "sum%d" % n, "data": [n, unit]}), "summary", {"summary": "sum%d" % n, "data": [n, unit]}
         if k < 60:
             return json.dumps({"metric": {"fileName": unit, "function": "f%d" % n, "id": "HIS-x", "lineNumber": n, "value": n}}), "metric", None
@@ -280,7 +284,7 @@ class C34(PropBase):
                 # script of addon a is only played if no *other* addon's malformed-typed line ended the phase before it.
                 others_raise = any(a2 != a and any(k in ("wrong-type", "missing-fields") for k in scn["plan"][a2][u].get("kinds", []))
                                    for a2 in scn["addons"])
-                mine = [f for f in addon_fs if f.id.startswith(a + "-") and f.id != a + "-echo" and f.file0 == u]
+                mine = [f for f in addon_fs if f.id.startswith(a + "-") and f.id not in (a + "-echo", a + "-count") and f.file0 == u]
                 ie = [f for f in internal if f.locs and f.locs[0][0] == u and (("--name=%s " % a) in f[5] or ("'%s.json'" % a) in f[5] or ("--name=%s " % a) in f.msg or ("'%s.json'" % a) in f.msg)]
                 if failing:
                     if not ie and others_raise and any(f.locs and f.locs[0][0] == u for f in internal):
@@ -345,6 +349,12 @@ class C34(PropBase):
                 elif all_clean and self._suppressed(scn.get("suppr", []), a + "-echo", "ctu") is False and sorted(set(echoes)) != sorted(set(want)):
                     out.violate("summaries-not-forwarded", "addon summaries reaching whole-program analysis differ (%s%s%s)" % (run["exec"], ", build dir" if b else "", ", second run" if plan_prev else ""),
                                 ["%s: addon %s" % (how, a), "expected: %s" % want[:4], "got: %s" % echoes[:4]], ids="summ")
+                elif all_clean and self._suppressed(scn.get("suppr", []), a + "-count", "ctu") is False:
+                    # every summary line counts, also one that equals a line of another unit
+                    counts = [f.msg for f in addon_fs if f.id == a + "-count"]
+                    if counts != ["summary-count %d" % len(want)]:
+                        out.violate("summaries-not-forwarded", "number of addon summaries reaching whole-program analysis differs (%s%s%s)" % (run["exec"], ", build dir" if b else "", ", second run" if plan_prev else ""),
+                                    ["%s: addon %s" % (how, a), "expected %d summaries (%d distinct), the whole-program addon saw: %s" % (len(want), len(set(want)), counts)], ids="summcount")
 
     def candidates(self, scn):
         if scn.get("history"):
